@@ -246,8 +246,15 @@ def allof_required(rep, d) -> None:
         "RedeclaredOptional": ({"allOf": [R("Base"), {"type": "object", "properties": {"id": {"type": "integer"}}}]}, {"id": True, "email": False}),
         "Plain": ({"type": "object", "required": ["a"], "properties": {"a": S, "b": S, "c": {"type": "string", "default": "x"}, "dflt": {"type": "integer", "default": 3}},
                    }, {"a": True, "b": False, "c": False, "dflt": False}),
-        "RequiredWithDefault": ({"type": "object", "required": ["a", "b"], "properties": {"a": {"type": "string", "default": "x"}, "b": S}}, {"a": False, "b": True}),
+        "RequiredWithDefault": ({"type": "object", "required": ["a", "b"], "properties": {"a": {"type": "string", "default": "x"}, "b": S}}, {"a": False, "b": True}, {"a", "b"}),
+        # one member documents a default, another member requires the property (possibly narrowing it): the argument has a default, the KEY is required
+        "DefaultThenRequired": ({"allOf": [{"type": "object", "properties": {"role": {"type": "string", "default": "user"}, "n": S}}, {"type": "object", "required": ["role"]}]},
+                                {"role": False, "n": False}, {"role"}),
+        "DefaultNarrowedRequired": ({"allOf": [{"type": "object", "properties": {"role": {"type": "string", "default": "user"}}},
+                                               {"type": "object", "required": ["role"], "properties": {"role": {"type": "string", "enum": ["user", "admin"]}}}]}, {"role": False}, {"role"}),
+        "DefaultInBaseRequiredInChild": ({"allOf": [R("WithDefault"), {"type": "object", "required": ["role"], "properties": {"role": {"type": "string", "default": "user"}}}]}, {"role": False}, {"role"}),
     }
+    base["WithDefault"] = {"type": "object", "properties": {"role": {"type": "string", "default": "user"}}}
     # the base is declared first and the tightening children right after it, the other child and the base's own expectations last
     doc = gen.mkdoc(schemas={**base, **{k: v[0] for k, v in fam.items() if k != "Base"}})
     g = gen.generate(doc, d / "ar")
@@ -255,20 +262,45 @@ def allof_required(rep, d) -> None:
         rep.violate("C10/allof-family-not-generated", f"{g['exc'] or g['diags'][:2]}", doc=doc)
         return
     cases = []
-    for k, (schema, exp) in fam.items():
+    fam = {k: (v[0], v[1], (v[2] if len(v) > 2 else {p for p, m in v[1].items() if m})) for k, v in fam.items()}
+    for k, (schema, exp, _) in fam.items():
         for prop in exp:
             cases.append({"cls": k, "prop": prop, "wires": [], "construct_empty": False})
     out = codec.run_sandbox(d, "ar", cases)
     # run_sandbox keys results by class: collect meta per (class, prop) with a second pass
     import subprocess
     from ..common import VENV_PY
-    script = "import json,sys,inspect; sys.path.insert(0, %r); import ar.models as m; print(json.dumps({k: {n: (p.default is inspect.Parameter.empty) for n, p in inspect.signature(getattr(m, k)).parameters.items()} for k in %r}))" % (str(d), list(fam))
+    script = ("import json,sys,inspect; sys.path.insert(0, %r); import ar.models as m\n"
+              "VAL={'id':1,'dflt':3}\n"
+              "def dec(k, props):\n"
+              "    C=getattr(m,k); full={p:VAL.get(p, 'user' if p=='role' else 'x') for p in props}; r={}\n"
+              "    try: C.from_dict(dict(full)); r['__full__']='ok'\n"
+              "    except Exception as e: r['__full__']=repr(e)[:80]\n"
+              "    for p in props:\n"
+              "        part={q:v for q,v in full.items() if q!=p}\n"
+              "        try: C.from_dict(part); r[p]='ok'\n"
+              "        except KeyError: r[p]='keyerror'\n"
+              "        except Exception as e: r[p]=repr(e)[:80]\n"
+              "    return r\n"
+              "print(json.dumps({k: {'sig': {n: (p.default is inspect.Parameter.empty) for n, p in inspect.signature(getattr(m, k)).parameters.items()}, 'dec': dec(k, props)} for k, props in %r.items()}))"
+              ) % (str(d), {k: sorted(v[1]) for k, v in fam.items()})
     p = subprocess.run([VENV_PY, "-I", "-c", script], capture_output=True, text=True, timeout=120)
     if p.returncode != 0:
         rep.violate("C10/allof-family-import", p.stderr[-500:], doc=doc)
         return
-    sigs = json.loads(p.stdout.strip().splitlines()[-1])
-    for k, (schema, exp) in fam.items():
+    both = json.loads(p.stdout.strip().splitlines()[-1])
+    sigs = {k: v["sig"] for k, v in both.items()}
+    for k, (schema, exp, reqd) in fam.items():
+        dec = both[k]["dec"]
+        if dec["__full__"] != "ok":
+            rep.violate(f"C10/allof-required/{k}/full-instance-rejected", f"{k}: an instance carrying every property is rejected: {dec['__full__']}", schema=schema)
+            continue
+        for prop in exp:
+            if prop in reqd and dec[prop] != "keyerror" and not (k.startswith("InheritedRequired") and prop == "email"):
+                rep.violate(f"C10/allof-required/{k}/{prop}/absent-key-accepted", f"{k}.{prop} is required by a member but an instance without it decodes ({dec[prop]})", schema=schema)
+            if prop not in reqd and dec[prop] != "ok":
+                rep.violate(f"C10/allof-required/{k}/{prop}/optional-key-demanded", f"{k}.{prop} is required by no member but an instance without it fails: {dec[prop]}", schema=schema)
+    for k, (schema, exp, reqd) in fam.items():
         for prop, mand in exp.items():
             rep.count(1, ("allof-required", k, prop))
             got = sigs[k].get(prop)
